@@ -291,7 +291,7 @@ PROPS = {
                T("TestC14RaceExhaustive", Q(0, timeout=300), Q(0, timeout=1200)),
                T("TestC14Cluster", Q(300, timeout=300, shrinktime="20s"), Q(3000, timeout=900, shards=4, shrinktime="60s")),
                T("TestC14Diff", Q(30000), Q(200000, timeout=900, shards=2)),
-               T("TestC14Reconcile", Q(30, timeout=300, shrinktime="20s"), Q(300, timeout=900, shards=4, shrinktime="60s"))],
+               T("TestC14Reconcile", Q(30, timeout=900, shrinktime="20s"), Q(300, timeout=900, shards=4, shrinktime="60s"))],
         rule="TestC14: a fresh real engine per case; 3-20 actions over names {a,b,c}: create, delete, restore (generated 0-4 record stream through Manager.Restore), list, get, put, range, reconcile. Oracle: create succeeds iff the name is absent "
              "(sequentially: always then), every assigned id (create and restore) > all earlier ids, delete iff exists, list/get == model catalogue (name:id), new and re-created tables are empty, a put on one table never changes another, "
              "after VerifReconcile the NodeHost's running table shards == catalogued ids. Non-trivial iff a name that held data was deleted and re-created, or a restore happened between creates. "
